@@ -918,6 +918,12 @@ func c17VirtualLongNames(u *vfUnit) {
 		case 1: // a real file's Sys() value, owner remapped by FileInfoUidGid
 			if real != nil {
 				v.sys = real.Sys()
+				if st, ok := real.Sys().(*syscall.Stat_t); ok {
+					// the host object belongs to somebody (not always to 0:0): ids of its own, different from the remapped ones
+					cp := *st
+					cp.Uid, cp.Gid = []uint32{998, 0, 1000, 0}[(i/3)%4], []uint32{997, 1000, 0, 0}[(i/3)%4]
+					v.sys = &cp
+				}
 			}
 			l = append(l, c17VOwned{v})
 			owned[v.name] = true
